@@ -203,6 +203,8 @@ class Translator:
             return type(a)(list(a) + list(b)) if type(a) == type(b) else list(a) + list(b)
         if isinstance(op, ast.Mult) and isinstance(a, list) and isinstance(b, int):
             return a * b
+        if isinstance(a, str) and isinstance(b, str) and isinstance(op, ast.Add):
+            return a + b
         if isinstance(a, ZS) or isinstance(b, ZS):
             return self.z_binop(op, a, b, node)
         if isinstance(a, int) and isinstance(b, int):
@@ -608,6 +610,8 @@ class Translator:
                     self.isclose_cmp = saved
             recv = self.ev(f.value, env)
             args = [self.ev(a, env) for a in e.args]
+            if isinstance(recv, str):
+                return '<text>'        # str.format(...) etc.: only used for messages
             if isinstance(recv, list):
                 if f.attr == 'append' and len(args) == 1:
                     recv.append(args[0]); return None
@@ -619,7 +623,7 @@ class Translator:
                 if f.attr == 'integ' and not args: return self.poly_integ(recv)
                 raise Unsupported('poly method ' + f.attr, e)
             if isinstance(recv, Obj):
-                return self.call_method(recv, f.attr, args, e, kw)
+                return self.call_method(recv, f.attr, args, e, kw, tail=(getattr(self, 'tail_call', None) is e))
             raise Unsupported('method call ' + f.attr, e)
         if isinstance(f, ast.Name) and f.id in self.CTORS:
             return self.construct(f.id, e, env)
@@ -632,7 +636,7 @@ class Translator:
             if f.id in env and isinstance(env[f.id], Poly) and len(args) == 1:
                 return self.poly_call(env[f.id], args[0])
             if f.id in self.funcs and f.id not in self.no_inline:
-                return self.inline(self.funcs[f.id], args, kw, {}, e)
+                return self.inline(self.funcs[f.id], args, kw, {}, e, tail=(getattr(self, 'tail_call', None) is e))
             return self.builtin(f.id, args, kw, e)
         if isinstance(f, ast.Call) or isinstance(f, ast.Subscript):
             fv = self.ev(f, env)
@@ -777,14 +781,14 @@ class Translator:
 
     isclose_cmp = 'ltb'   # misctools.isclose uses <
 
-    def call_method(self, obj, name, args, node, kw=None):
+    def call_method(self, obj, name, args, node, kw=None, tail=False):
         kw = kw or {}
         meths = self.classes.get(obj.cls, {})
         if name not in meths:
             raise Unsupported('method %s.%s' % (obj.cls, name), node)
-        return self.inline(meths[name], [obj] + list(args), kw, {}, node)
+        return self.inline(meths[name], [obj] + list(args), kw, {}, node, tail=tail)
 
-    def inline(self, fn, args, kw, closure_env, node):
+    def inline(self, fn, args, kw, closure_env, node, tail=False):
         env = dict(closure_env)
         params = fn.args.args
         defaults = fn.args.defaults
@@ -801,6 +805,8 @@ class Translator:
             else:
                 raise Unsupported('missing argument ' + p.arg, node)
         r = self.run(fn.body, env)
+        if tail:
+            return r          # `return f(...)`: the callee's result IS the caller's result
         if isinstance(r, Rendered):
             raise Unsupported('symbolic branching inside inlined call to ' + fn.name, node)
         if isinstance(r, Raise):
@@ -861,7 +867,12 @@ class Translator:
                 self.assign(s.target, v, env)
                 continue
             if isinstance(s, ast.Return):
-                return self.ev(s.value, env) if s.value is not None else None
+                if isinstance(s.value, ast.Call):
+                    self.tail_call = s.value
+                try:
+                    return self.ev(s.value, env) if s.value is not None else None
+                finally:
+                    self.tail_call = None
             if isinstance(s, ast.Raise):
                 nm = ast.unparse(s.exc.func) if isinstance(s.exc, ast.Call) else ast.unparse(s.exc)
                 return Raise(nm)
@@ -878,17 +889,34 @@ class Translator:
                 if isinstance(it, Obj): it = self.call_method(it, 'bpoints', [], s)
                 if not isinstance(it, (list, tuple)):
                     raise Unsupported('for over non-static iterable', s)
-                if s.orelse: raise Unsupported('for-else', s)
+                # unrolled; `break` jumps to the matching end-of-loop marker (skipping the
+                # remaining iterations and the else clause), normal completion runs the else clause
+                self.loop_id = getattr(self, 'loop_id', 0) + 1
+                lid = self.loop_id
                 new = []
                 for x in it:
                     new.append(('bind', s.target, x))
-                    new.extend(s.body)
+                    new.extend(self.mark_breaks(s.body, lid))
+                new.extend(s.orelse)
+                new.append(('endloop', lid))
                 stmts = new + stmts[i:]
                 i = 0
                 continue
             if isinstance(s, tuple) and s[0] == 'bind':
                 self.assign(s[1], s[2], env)
                 continue
+            if isinstance(s, tuple) and s[0] == 'endloop':
+                continue
+            if isinstance(s, tuple) and s[0] == 'break':
+                k = i
+                while k < len(stmts) and not (isinstance(stmts[k], tuple) and stmts[k][0] == 'endloop' and stmts[k][1] == s[1]):
+                    k += 1
+                if k == len(stmts):
+                    raise Unsupported('break without enclosing unrolled loop')
+                i = k + 1
+                continue
+            if isinstance(s, ast.Break):
+                raise Unsupported('break outside a for loop', s)
             if isinstance(s, ast.If):
                 c = self.truth(self.ev(s.test, env), s)
                 if isinstance(c, bool):
@@ -909,6 +937,23 @@ class Translator:
                     c.s, self.render_with(b1, r1), self.render_with(b2, r2)))
             raise Unsupported('statement ' + type(s).__name__, s)
         return self.FALL
+
+    def mark_breaks(self, body, lid):
+        """copy of a loop body in which every `break` belonging to THIS loop is replaced by a marker"""
+        out = []
+        for st in body:
+            if isinstance(st, ast.Break):
+                out.append(('break', lid))
+            elif isinstance(st, ast.If):
+                st2 = copy.copy(st)
+                st2.body = self.mark_breaks(st.body, lid)
+                st2.orelse = self.mark_breaks(st.orelse, lid)
+                out.append(st2)
+            elif isinstance(st, (ast.For, ast.While)):
+                out.append(st)          # an inner loop owns its own breaks
+            else:
+                out.append(st)
+        return out
 
     def copy_env(self, env):
         out = {}
@@ -1029,6 +1074,10 @@ class Translator:
                 else:
                     raise Unsupported('parameter %s has no declared type' % p.arg, fn)
         has_raise = any(isinstance(n, ast.Raise) for n in ast.walk(fn))
+        for n in ast.walk(fn):       # raises in directly called module functions (tail calls are inlined with their raises)
+            if isinstance(n, ast.Call) and isinstance(n.func, ast.Name) and n.func.id in self.funcs:
+                if any(isinstance(m, ast.Raise) for m in ast.walk(self.funcs[n.func.id])):
+                    has_raise = True
         self.ret_ty = ('opt', ret) if has_raise and not (isinstance(ret, tuple) and ret[0] == 'opt') else ret
         r = self.run(fn.body, env)
         body = self.render_with(self.ctx.binds, r)
